@@ -896,3 +896,171 @@ func c01ComparedAsIs(c *Ctx, rule string, fns []*ssa.Function) {
 		c.R.Break(rule + ": no comparison of two strings found in the matcher")
 	}
 }
+
+// c17AddAtomic: in cmd/mcrew's Timers.Add the test "is this id pending" and the
+// filing of the new entry lie in one critical section.  Both are lifted to the
+// instruction of Add that contains them (itself, or the call of a helper); the
+// rule fails when a release of a mutex can happen between the two: an Unlock
+// in Add on a way from the test to the filing, or a helper that takes and
+// releases the lock by itself.
+func c17AddAtomic(c *Ctx, rule string) {
+	add := c.P.Func("cmd/mcrew", "Timers", "Add")
+	if add == nil {
+		c.R.Break(rule + ": cmd/mcrew Timers.Add not found")
+		return
+	}
+	isTimersMap := func(v ssa.Value) bool {
+		_, is := ssau.LoadOfField(v, prog.Abs("cmd/mcrew"), "Timers", "timers")
+		return is
+	}
+	// closure of Add inside the package, without goroutines and closures started by it
+	helpers := map[*ssa.Function]bool{}
+	var walk func(f *ssa.Function)
+	walk = func(f *ssa.Function) {
+		ssau.Instrs(f, func(in ssa.Instruction) {
+			if cl, ok := in.(*ssa.Call); ok {
+				if sc := cl.Common().StaticCallee(); sc != nil && sc.Blocks != nil && prog.PkgOf(sc) == "cmd/mcrew" && !helpers[sc] && sc != add {
+					helpers[sc] = true
+					walk(sc)
+				}
+			}
+		})
+	}
+	walk(add)
+	unlocks := func(f *ssa.Function) bool {
+		found := false
+		ssau.Instrs(f, func(in ssa.Instruction) {
+			if ci, ok := in.(ssa.CallInstruction); ok {
+				n := ssau.CalleeName(ci)
+				if strings.HasSuffix(n, "Mutex).Unlock") || strings.HasSuffix(n, "Mutex).RUnlock") {
+					found = true
+				}
+			}
+		})
+		return found
+	}
+	// closure of one helper
+	closureOf := func(h *ssa.Function) []*ssa.Function {
+		seen := map[*ssa.Function]bool{h: true}
+		work := []*ssa.Function{h}
+		for i := 0; i < len(work); i++ {
+			ssau.Instrs(work[i], func(in ssa.Instruction) {
+				if cl, ok := in.(*ssa.Call); ok {
+					if sc := cl.Common().StaticCallee(); sc != nil && helpers[sc] && !seen[sc] {
+						seen[sc] = true
+						work = append(work, sc)
+					}
+				}
+			})
+		}
+		return work
+	}
+	var tests, files []ssa.Instruction // lifted to Add
+	liftedRelease := map[ssa.Instruction]bool{}
+	scan := func(f *ssa.Function, lift ssa.Instruction) {
+		ssau.Instrs(f, func(in ssa.Instruction) {
+			at := lift
+			if at == nil {
+				at = in
+			}
+			switch x := in.(type) {
+			case *ssa.Lookup:
+				if x.CommaOk && isTimersMap(x.X) {
+					tests = append(tests, at)
+				}
+			case *ssa.MapUpdate:
+				if isTimersMap(x.Map) {
+					files = append(files, at)
+				}
+			}
+		})
+	}
+	scan(add, nil)
+	ssau.Instrs(add, func(in ssa.Instruction) {
+		cl, ok := in.(*ssa.Call)
+		if !ok {
+			return
+		}
+		sc := cl.Common().StaticCallee()
+		if sc == nil || !helpers[sc] {
+			return
+		}
+		for _, h := range closureOf(sc) {
+			scan(h, in)
+			if unlocks(h) {
+				liftedRelease[in] = true
+			}
+		}
+	})
+	if len(tests) == 0 || len(files) == 0 {
+		c.R.Break(fmt.Sprintf("%s: expected Timers.Add to test the pending map for the id and to file the entry (found %d tests, %d stores)", rule, len(tests), len(files)))
+		return
+	}
+	// releases directly in Add (not deferred)
+	var releases []ssa.Instruction
+	ssau.Instrs(add, func(in ssa.Instruction) {
+		if cl, ok := in.(*ssa.Call); ok {
+			n := ssau.CalleeName(cl)
+			if strings.HasSuffix(n, "Mutex).Unlock") || strings.HasSuffix(n, "Mutex).RUnlock") {
+				releases = append(releases, in)
+			}
+		}
+		if liftedRelease[in] {
+			releases = append(releases, in)
+		}
+	})
+	var bad []string
+	for _, t := range tests {
+		for _, f := range files {
+			if liftedRelease[t] {
+				bad = append(bad, "the test is made by a helper that takes and releases the lock by itself ("+c.pos(t)+")")
+			}
+			if liftedRelease[f] {
+				bad = append(bad, "the entry is filed by a helper that takes and releases the lock by itself ("+c.pos(f)+")")
+			}
+			for _, r := range releases {
+				if r == t || r == f {
+					continue
+				}
+				if instrReaches(t, r) && instrReaches(r, f) {
+					bad = append(bad, "the lock can be released at "+c.pos(r)+" between the test and the filing")
+				}
+			}
+		}
+	}
+	if len(bad) > 2 {
+		bad = bad[:2]
+	}
+	c.R.Check(len(bad) == 0, rule, "cmd/mcrew.(*Timers).Add: the id is tested and the entry filed in one critical section", c.P.Pos(add.Pos()), fmt.Sprintf("%d test(s) and %d store(s) of the pending map, no release of a mutex between them", len(tests), len(files)), strings.Join(bad, "; ")+": two requests for one id can both be accepted, and the first entry is overwritten, so an accepted timer that was never cancelled never fires")
+}
+
+// instrReaches: control can pass from instruction a to instruction b of the same function.
+func instrReaches(a, b ssa.Instruction) bool {
+	if a.Block() == b.Block() {
+		ia, ib := -1, -1
+		for i, in := range a.Block().Instrs {
+			if in == a {
+				ia = i
+			}
+			if in == b {
+				ib = i
+			}
+		}
+		if ia < ib {
+			return true
+		}
+		// around a cycle
+		for _, s := range a.Block().Succs {
+			if blockReaches(s, b.Block()) {
+				return true
+			}
+		}
+		return false
+	}
+	for _, s := range a.Block().Succs {
+		if blockReaches(s, b.Block()) {
+			return true
+		}
+	}
+	return false
+}
